@@ -96,6 +96,18 @@ func buildCases(r *vrun.Run, scratch string) []Case {
 			}
 			add(Case{Ctor: ct, Rep: rep, Members: m0, Appends: m1, SetSrc: rep%3 == 0})
 		}
+		// composites built from a caller's slice with spare capacity, then appended to on both sides
+		for si, sh := range []struct{ ctor, hist string }{{"combined", "caller-append"}, {"combined", "second-composite"},
+			{"multiple", []string{"caller-append", "second-composite"}[rep%2]}} {
+			rng := r.Rand("c13-shared", rep*3+si)
+			n := (rep+si)%3 + 1
+			var ms []string
+			for i := 0; i < n; i++ {
+				ms = append(ms, memberKinds[rng.IntN(len(memberKinds))])
+			}
+			ap := []string{memberKinds[rng.IntN(len(memberKinds))], memberKinds[rng.IntN(len(memberKinds))]}
+			add(Case{Ctor: sh.ctor, Rep: rep, Members: ms, Appends: ap, Shared: sh.hist, SetSrc: rep%2 == 1})
+		}
 	}
 	// ring-buffered asynchronous loggers: ring sizes × slow/fast sink, poller and waiter
 	polls := []int{0, 500, 2000, 10000}
@@ -120,6 +132,9 @@ func buildCases(r *vrun.Run, scratch string) []Case {
 
 func (c Case) label() string {
 	l := c.Ctor
+	if c.Shared != "" {
+		return l + "+shared-slice:" + c.Shared
+	}
 	if len(c.Appends) > 0 {
 		l += "+append"
 	}
@@ -247,7 +262,7 @@ func main() {
 	r.Assume("the recording sinks handed to the constructors are themselves goroutine-safe (one mutex), like os.File or a locked zap WriteSyncer: the property is about the loggers",
 		"race reports are attributed to the property only if one of the two ACCESS stacks has a frame in utils/logs (creation stacks are ignored); reports wholly inside third-party sink libraries are observations",
 		"exactly-once is judged against the multiplicity measured from a single goroutine immediately before the concurrent phase (a logger that copies every message to two places sequentially is not a concurrency loss)",
-		"asynchronous loggers are read at quiescence (accounting balanced, or no delivery and no drop report for 4 s) BEFORE Close; over-reporting of drops is don't-care",
+		"asynchronous loggers are read at quiescence (accounting balanced, or no delivery and no drop report for 4 s) BEFORE Close; over-reporting of drops is don't-care; messages the third-party ring still holds back (reader parked on a slot whose sequence number was skipped) count as buffered: the ring is flushed with ring+1 paced filler lines per stream and only what is unaccounted AFTER that is a violation",
 		"ordering between producers, line prefixes, timestamps and which std stream a message lands on are don't-care",
 		"held on the schedules that occurred in these runs; the race detector only sees races on executed paths")
 
@@ -374,6 +389,7 @@ func main() {
 		r.Obs("set_source_errors", res.SetErrors)
 		r.Obs("append_calls", res.AppendCalls)
 		r.Obs("messages_judged_against_appended_member", res.AppendJudged)
+		r.Obs("messages_judged_absent_from_non_member", res.NonMemberJudged)
 		r.Obs("quiet_output_leaked", res.QuietLeak)
 		if len(c.Members)+len(c.Appends) > 0 {
 			r.ObsSet("composite_member_counts", fmt.Sprint(len(c.Members)+len(c.Appends)))
@@ -393,6 +409,10 @@ func main() {
 			r.Obs("async_delivered", res.AsyncDeliv)
 			r.Obs("async_reported_dropped", res.AsyncReported)
 			r.Obs("async_drop_reports", res.AsyncReports)
+			if res.AsyncStuck > 0 {
+				r.Obs("async_cases_ring_held_messages_back_until_flushed(buffered,not_judged)", 1)
+				r.Obs("async_messages_held_back_until_flushed", res.AsyncStuck)
+			}
 			if res.AsyncReported > 0 {
 				r.Obs("async_cases_with_reported_drops", 1)
 			}
@@ -478,7 +498,8 @@ func main() {
 	}
 	if r.Replay == "" {
 		r.Require("children_completed", int64(len(cases)*9/10))
-		r.Require("constructors", int64(len(simpleCtors)+6))
+		r.Require("constructors", int64(len(simpleCtors)+10))
+		r.Require("messages_judged_absent_from_non_member", 5000)
 		r.Require("ring_sizes", int64(len(ringSizes)))
 		r.Require("composite_member_counts", 4)
 		r.Require("producers", 3)
